@@ -645,11 +645,14 @@ func (m *InterpModel) Instr(mc *Machine, st *State, in ssa.Instruction, ops []AV
 		} else {
 			base = in.(*ssa.IndexAddr).X
 		}
-		if _, isSlice := base.Type().Underlying().(*types.Slice); isSlice && len(ops) == 2 && ops[1].K == KSym && !strings.HasPrefix(ops[1].S, "rangeidx:") {
+		if _, isSlice := base.Type().Underlying().(*types.Slice); isSlice && len(ops) == 2 && ((ops[1].K == KSym && !strings.HasPrefix(ops[1].S, "rangeidx:")) || (ops[1].K == KInt && ops[0].K == KSym)) {
 			e := m.ev(in, "index", argStrings(ops), "")
 			var fs []string
 			for k, v := range st.Facts {
-				if strings.HasPrefix(k, "c:") && strings.Contains(k, ops[1].S) {
+				if !strings.HasPrefix(k, "c:") {
+					continue
+				}
+				if (ops[1].K == KSym && strings.Contains(k, ops[1].S)) || (ops[1].K == KInt && strings.Contains(k, "len("+ops[0].S+")")) {
 					fs = append(fs, k[2:]+"="+v.String())
 				}
 			}
